@@ -82,6 +82,13 @@ DIMS_ONLY = (
     "</svg>"
 )
 
+INHERITED_NUMERIC = (
+    f'<svg {SVGNS} viewBox="0 0 40 40">'
+    '<g fill-opacity="0.5" stroke-opacity="0.25"><rect x="2" y="2" width="6" height="6"/><path d="M1,1 h5 v5 z" fill="red"/></g>'
+    '<g stroke-width="3" stroke-miterlimit="2"><path d="M10,10 h5 v5 z" fill="blue" stroke-width="1"/></g>'
+    "</svg>"
+)
+
 CORPUS = {
     "basic": BASIC,
     "use_nested": USE_NESTED,
@@ -89,6 +96,7 @@ CORPUS = {
     "pico": PICO,
     "foreign_clip": FOREIGN_CLIP,
     "dims_only": DIMS_ONLY,
+    "inherited_numeric": INHERITED_NUMERIC,
 }
 
 # ---------------------------------------------------------------- fragments for composed documents
@@ -104,6 +112,9 @@ ROOT_ATTRS = [
 ]
 
 FRAGMENTS = {
+    # numeric presentation attributes (default 1) inherited from a group: an operation that resets the shape's own
+    # value to the default must leave the shape saying so, or it silently re-inherits the group's value
+    "inherited_numeric": '<g fill-opacity="0.5" stroke-opacity="0.25" stroke-width="3"><rect x="2" y="2" width="6" height="6"/><path d="M1,1 h5 v5 z" fill="red"/><circle cx="20" cy="20" r="4" fill-opacity="0.5"/></g>',
     "rect_in_styled_g": '<g style="fill:red;stroke-width:3"><rect x="10" y="10" width="30.5" height="20" rx="0" class="k"/><rect x="12" y="12" width="3" height="3" fill="#00f"/></g>',
     "rel_path": '<path d="M5,5 l20.5555,0 v10 h-5 z m3,3" style="opacity:0.5"/>',
     "shorthand": '<path id="sh" d="M2,2 C2,10 10,10 10,2 S18,-6 18,2 q4,4 8,0 t8,0" fill="none" stroke="#333"/>',
